@@ -25,6 +25,7 @@ package kvql
 //
 //@ define covers(st *ScanType, k B) Bool = ite(st.scanTp == EMPTY, false, ite(st.scanTp == MGET, member(st.keys, len(st.keys), k), ite(st.scanTp == PREFIX, pre(val(st.keys[0]), k), ite(st.scanTp == RANGE, coversRange(st.keys[0], st.keys[1], k), true))))
 //
+//@ define sub2(res *ScanType, x *ScanType, k B, k2 B) Bool = (covers(res, k) ==> covers(x, k)) && (covers(res, k2) ==> covers(x, k2))
 //@ define isKey(x Expression) Bool = is(x, *FieldExpr) && as(x, *FieldExpr).Field == KeyKW
 //@ define isStr(x Expression) Bool = is(x, *StringExpr)
 //@ define strOf(x Expression) B = val(as(x, *StringExpr).Data)
@@ -37,6 +38,9 @@ package kvql
 //@ axiom sem_gte(e *BinaryOpExpr, k B, v B): e.Op == Gte && holds(e, k, v) ==> (isKey(e.Left) && isStr(e.Right) ==> strOf(e.Right) <= k) && (isStr(e.Left) && isKey(e.Right) ==> k <= strOf(e.Left))
 //@ axiom sem_lt(e *BinaryOpExpr, k B, v B): e.Op == Lt && holds(e, k, v) ==> (isKey(e.Left) && isStr(e.Right) ==> k < strOf(e.Right)) && (isStr(e.Left) && isKey(e.Right) ==> strOf(e.Left) < k)
 //@ axiom sem_lte(e *BinaryOpExpr, k B, v B): e.Op == Lte && holds(e, k, v) ==> (isKey(e.Left) && isStr(e.Right) ==> k <= strOf(e.Right)) && (isStr(e.Left) && isKey(e.Right) ==> strOf(e.Left) <= k)
+//@ axiom sem_eq_rev(e *BinaryOpExpr, k B, v B): e.Op == Eq && ((isKey(e.Left) && isStr(e.Right) && k == strOf(e.Right)) || (isStr(e.Left) && isKey(e.Right) && k == strOf(e.Left))) ==> holds(e, k, v)
+//@ axiom sem_lte_rev(e *BinaryOpExpr, k B, v B): e.Op == Lte && isKey(e.Left) && isStr(e.Right) && k <= strOf(e.Right) ==> holds(e, k, v)
+//@ axiom sem_or_rev(e *BinaryOpExpr, k B, v B): (e.Op == Or || e.Op == KWOr) && (holds(e.Left, k, v) || holds(e.Right, k, v)) ==> holds(e, k, v)
 //@ axiom sem_false(e Expression, k B, v B): is(e, *BoolExpr) && holds(e, k, v) ==> as(e, *BoolExpr).Bool
 //
 // Counterexample-search only (never used in a proof): the exact meaning of an
@@ -57,24 +61,31 @@ package kvql
 //@   requires wfST(l) && wfST(r) && l.scanTp == RANGE && r.scanTp == RANGE
 //@   ensures wf: wfST(res)
 //@   ensures[C02] covers: old(covers(l, k)) || old(covers(r, k)) ==> covers(res, k)
+//@   ensures[C11] notM: res.scanTp != MGET
 //@   assigns nothing
 //
 //@ func (o *FilterOptimizer) intersectionRange(l, r *ScanType) (res *ScanType)
 //@   props C02 C18
-//@   ghost k B
+//@   ghost k B, k2 B
 //@   requires wfST(l) && wfST(r) && l.scanTp == RANGE && r.scanTp == RANGE
 //@   ensures wf: wfST(res)
 //@   ensures[C02] covers: old(covers(l, k)) && old(covers(r, k)) ==> covers(res, k)
+//@   ensures[C18] sub: sub2(res, l, k, k2) || sub2(res, r, k, k2)
+//@   ensures[C18] disjoint: (!isnil(l.keys[1]) && !isnil(r.keys[0]) && val(l.keys[1]) < val(r.keys[0])) || (!isnil(r.keys[1]) && !isnil(l.keys[0]) && val(r.keys[1]) < val(l.keys[0])) ==> res.scanTp == EMPTY
 //@   assigns nothing
 //
 // ---------------------------------------------------------------- PREFIX x PREFIX
 //
 //@ func (o *FilterOptimizer) intersectionPrefix(l, r *ScanType) (res *ScanType)
 //@   props C02 C18
-//@   ghost k B
+//@   ghost k B, k2 B
 //@   requires wfST(l) && wfST(r) && l.scanTp == PREFIX && r.scanTp == PREFIX
 //@   ensures wf: wfST(res)
 //@   ensures[C02] covers: old(covers(l, k)) && old(covers(r, k)) ==> covers(res, k)
+//@   ensures[C18] sub: covers(res, k) ==> old(covers(l, k)) && old(covers(r, k))
+//@   ensures[C18] sub2: sub2(res, l, k, k2)
+//@   ensures[C18] sub2: sub2(res, l, k, k2)
+//@   ensures[C18] disjoint: !pre(val(l.keys[0]), val(r.keys[0])) && !pre(val(r.keys[0]), val(l.keys[0])) ==> res.scanTp == EMPTY
 //@   assigns nothing
 //
 //@ func (o *FilterOptimizer) unionPrefix(l, r *ScanType) (res *ScanType)
@@ -83,16 +94,18 @@ package kvql
 //@   requires wfST(l) && wfST(r) && l.scanTp == PREFIX && r.scanTp == PREFIX
 //@   ensures wf: wfST(res)
 //@   ensures[C02] covers: old(covers(l, k)) || old(covers(r, k)) ==> covers(res, k)
+//@   ensures[C11] notM: res.scanTp != MGET
 //@   assigns nothing
 //
 // ---------------------------------------------------------------- PREFIX x RANGE
 //
 //@ func (o *FilterOptimizer) intersectionPrefixAndRange(prefix, srange *ScanType) (res *ScanType)
 //@   props C02 C18
-//@   ghost k B
+//@   ghost k B, k2 B
 //@   requires wfST(prefix) && wfST(srange) && prefix.scanTp == PREFIX && srange.scanTp == RANGE
 //@   ensures wf: wfST(res)
 //@   ensures[C02] covers: old(covers(prefix, k)) && old(covers(srange, k)) ==> covers(res, k)
+//@   ensures[C18] sub: sub2(res, prefix, k, k2) || sub2(res, srange, k, k2)
 //@   assigns nothing
 //
 //@ func (o *FilterOptimizer) unionPrefixAndRange(prefix, srange *ScanType) (res *ScanType)
@@ -101,20 +114,24 @@ package kvql
 //@   requires wfST(prefix) && wfST(srange) && prefix.scanTp == PREFIX && srange.scanTp == RANGE
 //@   ensures wf: wfST(res)
 //@   ensures[C02] covers: old(covers(prefix, k)) || old(covers(srange, k)) ==> covers(res, k)
+//@   ensures[C11] notM: res.scanTp != MGET
 //@   assigns nothing
 //
 // ---------------------------------------------------------------- MGET x PREFIX / RANGE
 //
 //@ func (o *FilterOptimizer) intersectionMgetAndPrefix(mget, prefix *ScanType) (res *ScanType)
 //@   props C02 C18
-//@   ghost k B
+//@   ghost k B, k2 B
 //@   requires wfST(mget) && wfST(prefix) && mget.scanTp == MGET && prefix.scanTp == PREFIX
 //@   ensures wf: wfST(res)
 //@   ensures[C02] covers: old(covers(mget, k)) && old(covers(prefix, k)) ==> covers(res, k)
+//@   ensures[C18] sub: covers(res, k) ==> old(covers(mget, k)) && old(covers(prefix, k))
+//@   ensures[C18] sub2: sub2(res, mget, k, k2)
 //@   assigns nothing
 //@   loop 0 (k)
 //@     invariant nn: forall i Int :: 0 <= i && i < len(ikeys) ==> !isnil(ikeys[i])
 //@     invariant acc: member(mget.keys, rangeindex + 1, k) && pre(val(prefixKey), k) ==> member(ikeys, len(ikeys), k)
+//@     invariant rev: (member(ikeys, len(ikeys), k) ==> member(mget.keys, rangeindex + 1, k) && pre(val(prefixKey), k)) && (member(ikeys, len(ikeys), k2) ==> member(mget.keys, rangeindex + 1, k2) && pre(val(prefixKey), k2))
 //@     decreases len(mget.keys) - rangeindex
 //
 //@ func (o *FilterOptimizer) unionMgetAndPrefix(mget, prefix *ScanType) (res *ScanType)
@@ -123,6 +140,7 @@ package kvql
 //@   requires wfST(mget) && wfST(prefix) && mget.scanTp == MGET && prefix.scanTp == PREFIX
 //@   ensures wf: wfST(res)
 //@   ensures[C02] covers: old(covers(mget, k)) || old(covers(prefix, k)) ==> covers(res, k)
+//@   ensures[C11] notM: res.scanTp != MGET
 //@   assigns nothing
 //@   loop 0 (k)
 //@     invariant all: !havePrefixNotMatch ==> (member(mget.keys, rangeindex + 1, k) ==> pre(val(prefixKey), k))
@@ -130,14 +148,17 @@ package kvql
 //
 //@ func (o *FilterOptimizer) intersectionMgetAndRange(mget, srange *ScanType) (res *ScanType)
 //@   props C02 C18
-//@   ghost k B
+//@   ghost k B, k2 B
 //@   requires wfST(mget) && wfST(srange) && mget.scanTp == MGET && srange.scanTp == RANGE
 //@   ensures wf: wfST(res)
 //@   ensures[C02] covers: old(covers(mget, k)) && old(covers(srange, k)) ==> covers(res, k)
+//@   ensures[C18] sub: covers(res, k) ==> old(covers(mget, k)) && old(covers(srange, k))
+//@   ensures[C18] sub2: sub2(res, mget, k, k2)
 //@   assigns nothing
 //@   loop 0 (k)
 //@     invariant nn: forall i Int :: 0 <= i && i < len(ikeys) ==> !isnil(ikeys[i])
 //@     invariant acc: member(mget.keys, rangeindex + 1, k) && coversRange(rstart, rend, k) ==> member(ikeys, len(ikeys), k)
+//@     invariant rev: (member(ikeys, len(ikeys), k) ==> member(mget.keys, rangeindex + 1, k) && coversRange(rstart, rend, k)) && (member(ikeys, len(ikeys), k2) ==> member(mget.keys, rangeindex + 1, k2) && coversRange(rstart, rend, k2))
 //@     decreases len(mget.keys) - rangeindex
 //
 //@ func (o *FilterOptimizer) unionMgetAndRange(mget, srange *ScanType) (res *ScanType)
@@ -146,6 +167,7 @@ package kvql
 //@   requires wfST(mget) && wfST(srange) && mget.scanTp == MGET && srange.scanTp == RANGE
 //@   ensures wf: wfST(res)
 //@   ensures[C02] covers: old(covers(mget, k)) || old(covers(srange, k)) ==> covers(res, k)
+//@   ensures[C11] notM: res.scanTp != MGET
 //@   assigns nothing
 //@   loop 0 (k)
 //@     invariant all: !haveRangeNotMatch ==> (member(mget.keys, rangeindex + 1, k) ==> coversRange(rstart, rend, k))
@@ -161,6 +183,9 @@ package kvql
 //@   use sem_eq(e, k, v)
 //@   ensures wf: wfST(res)
 //@   ensures[C02] covers: holds(e, k, v) ==> covers(res, k)
+//@   ensures[C18] shape: ((isKey(e.Left) && isStr(e.Right)) ==> res.scanTp == MGET && len(res.keys) == 1 && val(res.keys[0]) == strOf(e.Right)) && ((isStr(e.Left) && isKey(e.Right)) ==> res.scanTp == MGET && len(res.keys) == 1 && val(res.keys[0]) == strOf(e.Left))
+//@   use sem_eq_rev(e, k, v)
+//@   ensures[C11] exact: res.scanTp == MGET && covers(res, k) ==> holds(e, k, v)
 //@   assigns nothing
 //
 //@ func (o *FilterOptimizer) optimizePrefixMatchExpr(e *BinaryOpExpr) (res *ScanType)
@@ -171,6 +196,8 @@ package kvql
 //@   use sem_prefix(e, k, v)
 //@   ensures wf: wfST(res)
 //@   ensures[C02] covers: holds(e, k, v) ==> covers(res, k)
+//@   ensures[C18] shape: isKey(e.Left) && isStr(e.Right) ==> res.scanTp == PREFIX && val(res.keys[0]) == strOf(e.Right)
+//@   ensures[C11] exact: res.scanTp != MGET
 //@   assigns nothing
 //
 //@ func (o *FilterOptimizer) optimizeGtGteExpr(e *BinaryOpExpr) (res *ScanType)
@@ -182,6 +209,8 @@ package kvql
 //@   use sem_gte(e, k, v)
 //@   ensures wf: wfST(res)
 //@   ensures[C02] covers: holds(e, k, v) ==> covers(res, k)
+//@   ensures[C18] shape: isKey(e.Left) && isStr(e.Right) && strOf(e.Right) != eps ==> res.scanTp == RANGE && val(res.keys[0]) == strOf(e.Right) && isnil(res.keys[1])
+//@   ensures[C11] exact: res.scanTp != MGET
 //@   assigns nothing
 //
 //@ func (o *FilterOptimizer) optimizeLtLteExpr(e *BinaryOpExpr) (res *ScanType)
@@ -193,17 +222,24 @@ package kvql
 //@   use sem_lte(e, k, v)
 //@   ensures wf: wfST(res)
 //@   ensures[C02] covers: holds(e, k, v) ==> covers(res, k)
+//@   ensures[C18] shape: isKey(e.Left) && isStr(e.Right) && strOf(e.Right) != eps ==> res.scanTp == RANGE && isnil(res.keys[0]) && val(res.keys[1]) == strOf(e.Right)
+//@   ensures[C18] unsat: e.Op == Lt && isKey(e.Left) && isStr(e.Right) && strOf(e.Right) == eps ==> res.scanTp == EMPTY
+//@   use sem_lte_rev(e, k, v)
+//@   ensures[C11] exact: res.scanTp == MGET && covers(res, k) ==> holds(e, k, v)
 //@   assigns nothing
 //
 // ---------------------------------------------------------------- AND / OR / dispatch
 //
 //@ func (o *FilterOptimizer) optimizeAndExpr(e *BinaryOpExpr) (res *ScanType)
 //@   props C02 C18
-//@   ghost k B, v B
+//@   ghost k B, v B, k2 B
 //@   requires e != nil && (e.Op == And || e.Op == KWAnd)
 //@   use sem_and(e, k, v)
 //@   ensures wf: wfST(res)
 //@   ensures[C02] covers: holds(e, k, v) ==> covers(res, k)
+//@   use def_bin(e)
+//@   ensures[C18] narrower: sub2(res, local(lstype), k, k2) || sub2(res, local(rstype), k, k2)
+//@   ensures[C11] exact: !hasAnd(e) && res.scanTp == MGET && covers(res, k) ==> holds(e, k, v)
 //@   assigns nothing
 //
 //@ func (o *FilterOptimizer) optimizeOrExpr(e *BinaryOpExpr) (res *ScanType)
@@ -213,6 +249,9 @@ package kvql
 //@   use sem_or(e, k, v)
 //@   ensures wf: wfST(res)
 //@   ensures[C02] covers: holds(e, k, v) ==> covers(res, k)
+//@   use def_bin(e)
+//@   use sem_or_rev(e, k, v)
+//@   ensures[C11] exact: !hasAnd(e) && res.scanTp == MGET && covers(res, k) ==> holds(e, k, v)
 //@   assigns nothing
 //
 //@ func (o *FilterOptimizer) optimizeExpr(expr Expression) (res *ScanType)
@@ -221,6 +260,8 @@ package kvql
 //@   use sem_false(expr, k, v)
 //@   ensures wf: wfST(res)
 //@   ensures[C02] covers: holds(expr, k, v) ==> covers(res, k)
+//@   ensures[C18] unsat: is(expr, *BoolExpr) && !as(expr, *BoolExpr).Bool ==> res.scanTp == EMPTY
+//@   ensures[C11] exact: !hasAnd(expr) && res.scanTp == MGET && covers(res, k) ==> holds(expr, k, v)
 //@   assigns nothing
 //
 // ---------------------------------------------------------------- IN / BETWEEN
@@ -230,6 +271,7 @@ package kvql
 //@ define someNonStr(L []Expression, n Int) Bool = exists i Int :: 0 <= i && i < n && !isStr(L[i])
 //
 //@ axiom sem_in(e *BinaryOpExpr, k B, v B): e.Op == In && holds(e, k, v) && isKey(e.Left) && is(e.Right, *ListExpr) && !someNonStr(listOf(e), len(listOf(e))) ==> inListStr(listOf(e), len(listOf(e)), k)
+//@ axiom sem_in_rev(e *BinaryOpExpr, k B, v B): e.Op == In && isKey(e.Left) && is(e.Right, *ListExpr) && !someNonStr(listOf(e), len(listOf(e))) && inListStr(listOf(e), len(listOf(e)), k) ==> holds(e, k, v)
 //@ axiom sem_between(e *BinaryOpExpr, k B, v B): e.Op == Between && holds(e, k, v) && isKey(e.Left) && is(e.Right, *ListExpr) && len(listOf(e)) == 2 && isStr(listOf(e)[0]) && isStr(listOf(e)[1]) ==> strOf(listOf(e)[0]) <= k && k <= strOf(listOf(e)[1])
 //
 //@ func (o *FilterOptimizer) optimizeInExpr(e *BinaryOpExpr) (res *ScanType)
@@ -239,11 +281,16 @@ package kvql
 //@   use sem_in(e, k, v)
 //@   ensures wf: wfST(res)
 //@   ensures[C02] covers: holds(e, k, v) ==> covers(res, k)
+//@   ensures[C18] shape: isKey(e.Left) && is(e.Right, *ListExpr) && len(listOf(e)) > 0 && !someNonStr(listOf(e), len(listOf(e))) ==> res.scanTp == MGET && (covers(res, k) ==> inListStr(listOf(e), len(listOf(e)), k))
+//@   use sem_in_rev(e, k, v)
+//@   ensures[C11] exact: res.scanTp == MGET && covers(res, k) ==> holds(e, k, v)
 //@   assigns nothing
 //@   loop 0 (expr)
 //@     invariant nn: forall i Int :: 0 <= i && i < len(keys) ==> !isnil(keys[i])
-//@     invariant allstr: canUseMget ==> !someNonStr(listOf(e), rangeindex + 1)
+//@     invariant allstr: canUseMget ==> !someNonStr(listOf(e), rangeindex + 1) && len(keys) == rangeindex + 1
+//@     invariant notall: !canUseMget ==> someNonStr(listOf(e), rangeindex + 1)
 //@     invariant acc: inListStr(listOf(e), rangeindex + 1, k) ==> member(keys, len(keys), k)
+//@     invariant rev: member(keys, len(keys), k) ==> inListStr(listOf(e), rangeindex + 1, k)
 //@     decreases len(listOf(e)) - rangeindex
 //
 //@ func (o *FilterOptimizer) optimizeBetweenExpr(e *BinaryOpExpr) (res *ScanType)
@@ -253,10 +300,13 @@ package kvql
 //@   use sem_between(e, k, v)
 //@   ensures wf: wfST(res)
 //@   ensures[C02] covers: holds(e, k, v) ==> covers(res, k)
+//@   ensures[C18] shape: isKey(e.Left) && is(e.Right, *ListExpr) && len(listOf(e)) == 2 && isStr(listOf(e)[0]) && isStr(listOf(e)[1]) ==> ite(strOf(listOf(e)[0]) <= strOf(listOf(e)[1]), res.scanTp == RANGE && val(res.keys[0]) == strOf(listOf(e)[0]) && val(res.keys[1]) == strOf(listOf(e)[1]), res.scanTp == EMPTY)
+//@   ensures[C11] exact: res.scanTp != MGET
 //@   assigns nothing
 //@   loop 0 (expr)
 //@     invariant lo: canUseRange && rangeindex >= 0 ==> isStr(listOf(e)[0]) && !isnil(lower) && val(lower) == strOf(listOf(e)[0])
 //@     invariant hi: canUseRange && rangeindex >= 1 ==> isStr(listOf(e)[1]) && !isnil(upper) && val(upper) == strOf(listOf(e)[1])
+//@     invariant no: !canUseRange ==> (rangeindex >= 0 && !isStr(listOf(e)[0])) || (rangeindex >= 1 && !isStr(listOf(e)[1]))
 //@     decreases len(listOf(e)) - rangeindex
 //
 // ---------------------------------------------------------------- MGET x MGET (maps)
@@ -267,36 +317,48 @@ package kvql
 //@   requires wfST(l) && wfST(r) && l.scanTp == MGET && r.scanTp == MGET
 //@   ensures wf: wfST(res)
 //@   ensures[C02] covers: old(covers(l, k)) || old(covers(r, k)) ==> covers(res, k)
+//@   ensures[C11] tightM: res.scanTp == MGET ==> (covers(res, k) ==> old(covers(l, k)) || old(covers(r, k)))
 //@   assigns nothing
 //@   loop 0 (k)
 //@     invariant mapwf: forall q B :: has(ukeys, q) ==> !isnil(ukeys[q]) && val(ukeys[q]) == q
 //@     invariant acc: member(l.keys, rangeindex + 1, k) ==> has(ukeys, k)
+//@     invariant rev: has(ukeys, k) ==> member(l.keys, rangeindex + 1, k)
 //@   loop 1 (k)
 //@     invariant mapwf: forall q B :: has(ukeys, q) ==> !isnil(ukeys[q]) && val(ukeys[q]) == q
 //@     invariant acc: member(l.keys, len(l.keys), k) || member(r.keys, rangeindex + 1, k) ==> has(ukeys, k)
+//@     invariant rev: has(ukeys, k) ==> member(l.keys, len(l.keys), k) || member(r.keys, rangeindex + 1, k)
 //@   loop 2 (v)
 //@     invariant mapwf: forall q B :: has(ukeys, q) ==> !isnil(ukeys[q]) && val(ukeys[q]) == q
 //@     invariant nn: forall i Int :: 0 <= i && i < len(keys) ==> !isnil(keys[i])
 //@     invariant acc: has(ukeys, k) && visited(k) ==> member(keys, len(keys), k)
+//@     invariant rev: member(keys, len(keys), k) ==> has(ukeys, k)
 //
 //@ func (o *FilterOptimizer) intersectionMget(l, r *ScanType) (res *ScanType)
 //@   props C02 C18
-//@   ghost k B
+//@   ghost k B, k2 B
 //@   requires wfST(l) && wfST(r) && l.scanTp == MGET && r.scanTp == MGET
 //@   ensures wf: wfST(res)
 //@   ensures[C02] covers: old(covers(l, k)) && old(covers(r, k)) ==> covers(res, k)
+//@   ensures[C18] sub: covers(res, k) ==> old(covers(l, k)) && old(covers(r, k))
+//@   ensures[C18] sub2: sub2(res, l, k, k2)
+//@   ensures[C18] sub2: sub2(res, l, k, k2)
+//@   ensures[C18] disjoint: res.scanTp == EMPTY || res.scanTp == MGET
 //@   assigns nothing
 //@   loop 0 (k)
 //@     invariant mapwf: forall q B :: has(lkeys, q) ==> !isnil(lkeys[q]) && val(lkeys[q]) == q
 //@     invariant acc: member(l.keys, rangeindex + 1, k) ==> has(lkeys, k)
+//@     invariant rev: (has(lkeys, k) ==> member(l.keys, rangeindex + 1, k)) && (has(lkeys, k2) ==> member(l.keys, rangeindex + 1, k2))
 //@   loop 1 (k)
 //@     invariant mapwf: forall q B :: has(lkeys, q) ==> !isnil(lkeys[q]) && val(lkeys[q]) == q
 //@     invariant keepl: member(l.keys, len(l.keys), k) ==> has(lkeys, k)
+//@     invariant keeprev: (has(lkeys, k) ==> member(l.keys, len(l.keys), k)) && (has(lkeys, k2) ==> member(l.keys, len(l.keys), k2))
 //@     invariant acc: member(r.keys, rangeindex + 1, k) ==> has(rkeys, k)
+//@     invariant rev: (has(rkeys, k) ==> member(r.keys, rangeindex + 1, k)) && (has(rkeys, k2) ==> member(r.keys, rangeindex + 1, k2))
 //@   loop 2 (lv)
 //@     invariant mapwf: forall q B :: has(lkeys, q) ==> !isnil(lkeys[q]) && val(lkeys[q]) == q
 //@     invariant nn: forall i Int :: 0 <= i && i < len(keys) ==> !isnil(keys[i])
 //@     invariant acc: has(lkeys, k) && has(rkeys, k) && visited(k) ==> member(keys, len(keys), k)
+//@     invariant rev: (member(keys, len(keys), k) ==> has(lkeys, k) && has(rkeys, k)) && (member(keys, len(keys), k2) ==> has(lkeys, k2) && has(rkeys, k2))
 //
 //@ func (o *FilterOptimizer) optimizeLiteralFirstExpr(e *BinaryOpExpr, left *StringExpr, keyIsGreater bool) (res *ScanType)
 //@   props C02 C18
@@ -310,4 +372,34 @@ package kvql
 //@   use sem_lte(e, k, v)
 //@   ensures wf: wfST(res)
 //@   ensures[C02] covers: holds(e, k, v) ==> covers(res, k)
+//@   ensures[C11] exact: res.scanTp != MGET
 //@   assigns nothing
+//
+// ---------------------------------------------------------------- scan type -> plan
+//
+// planCovers(p, k): the keys the plan built for a scan type reads (see the scan-plan
+// contracts for what each plan reads).
+//@ define planCovers(p Plan, k B) Bool = ite(is(p, *EmptyResultPlan), false, ite(is(p, *MultiGetPlan), member(as(p, *MultiGetPlan).Keys, len(as(p, *MultiGetPlan).Keys), k), ite(is(p, *PrefixScanPlan), pre(val(as(p, *PrefixScanPlan).Prefix), k), ite(is(p, *RangeScanPlan), coversRange(as(p, *RangeScanPlan).Start, as(p, *RangeScanPlan).End, k), true))))
+//
+//@ func NewMultiGetPlan(s Storage, f *FilterExec, keys []string) (plan Plan)
+//@   props C02 C18 C01
+//@   ghost k B
+//@   assigns elems(keys)
+//@   ensures kind: is(plan, *MultiGetPlan) && fresh(plan)
+//@   ensures fields: as(plan, *MultiGetPlan).Storage == s && as(plan, *MultiGetPlan).Filter == f && as(plan, *MultiGetPlan).idx == 0 && as(plan, *MultiGetPlan).numKeys == len(keys) && as(plan, *MultiGetPlan).Keys == keys
+//@   ensures[C02] perm: member(keys, len(keys), k) == old(member(keys, len(keys), k))
+//
+//@ func (o *FilterOptimizer) Optimize() (plan Plan)
+//@   props C02 C18
+//@   ghost k B, v B
+//@   requires o != nil
+//@   assigns nothing
+//@   ensures nonnil: plan != nil && fresh(plan)
+//@   ensures[C02] covers: holds(o.expr, k, v) ==> planCovers(plan, k)
+//@   ensures[C11] exact: !hasAnd(o.expr) && is(plan, *MultiGetPlan) && planCovers(plan, k) ==> holds(o.expr, k, v)
+//@   ensures[C18] kinds: (is(plan, *EmptyResultPlan) || is(plan, *MultiGetPlan) || is(plan, *PrefixScanPlan) || is(plan, *RangeScanPlan) || is(plan, *FullScanPlan))
+//@   ensures wiring: (is(plan, *MultiGetPlan) ==> as(plan, *MultiGetPlan).Filter == o.filter && as(plan, *MultiGetPlan).Storage == o.storage && as(plan, *MultiGetPlan).idx == 0 && as(plan, *MultiGetPlan).numKeys == len(as(plan, *MultiGetPlan).Keys)) && (is(plan, *PrefixScanPlan) ==> as(plan, *PrefixScanPlan).Filter == o.filter && as(plan, *PrefixScanPlan).Storage == o.storage) && (is(plan, *RangeScanPlan) ==> as(plan, *RangeScanPlan).Filter == o.filter && as(plan, *RangeScanPlan).Storage == o.storage) && (is(plan, *FullScanPlan) ==> as(plan, *FullScanPlan).Filter == o.filter && as(plan, *FullScanPlan).Storage == o.storage)
+//@   loop 0 (k)
+//@     invariant copied: len(skeys) == len(stype.keys) && (member(stype.keys, rangeindex + 1, k) ==> member(skeys, rangeindex + 1, k))
+//@     invariant rev: member(skeys, rangeindex + 1, k) ==> member(stype.keys, rangeindex + 1, k)
+//@     invariant alias: ptr(skeys) != ptr(stype.keys)
